@@ -123,9 +123,17 @@ class SubRun:
             if lid == 2:
                 raise ValueError("listener 2 always raises")
 
+        # callers register all kinds of callables: a functools.partial (1), a callable object (2), a plain function (3)
+        import functools
+
+        class _Callable:
+            def __call__(self, ev):
+                return cb(ev)
+        target = {1: functools.partial(cb), 2: _Callable()}.get(lid, cb)
+
         def f():
             self.log("add_listener", l=lid)
-            self.removers[lid] = self.pairing.dispatcher_connect(cb)
+            self.removers[lid] = self.pairing.dispatcher_connect(target)
         self.loop.call_soon(f)
         self.step(1)
 
